@@ -101,16 +101,85 @@ def _run_chunk(args):
             for v in ctx.violations:
                 lst = res["violations"].setdefault(v.signature, [])
                 if len(lst) < KEEP_PER_SIG:
-                    lst.append((v.to_json(), dump_plan(plan)))
+                    lst.append((v.to_json(), dump_plan(plan), {"lo": lo, "i": i}))
     faulthandler.cancel_dump_traceback_later()
     return res
 
 
+def fork_map(tasks, workers, deadline, on_result, fn=None):
+    """Run every task in a process forked for it alone (at most `workers` at a time), hand the results to on_result.
+
+    One task = one *process history*: the runs of a chunk execute one after the other in a process image that has
+    only imported the code, so whatever state the library carries from one run to the next (module-level caches,
+    class attributes) is part of an exactly repeatable sequence and not of a worker's accidental past.
+    Returns True when the deadline stopped the submission of tasks."""
+    import select
+    import signal
+
+    fn = fn or _run_chunk
+    pending = list(tasks)
+    live = {}
+    stopped = False
+    try:
+        while pending or live:
+            while pending and len(live) < workers and time.monotonic() < deadline:
+                task = pending.pop(0)
+                rfd, wfd = os.pipe()
+                sys.stdout.flush()
+                sys.stderr.flush()
+                pid = os.fork()
+                if pid == 0:
+                    code = 3
+                    try:
+                        os.close(rfd)
+                        data = pickle.dumps(fn(task), protocol=4)
+                        with os.fdopen(wfd, "wb") as f:
+                            f.write(data)
+                        code = 0
+                    except BaseException:  # noqa: BLE001
+                        traceback.print_exc()
+                    finally:
+                        sys.stderr.flush()
+                        os._exit(code)
+                os.close(wfd)
+                live[rfd] = (pid, [], time.monotonic(), task)
+            if not live:
+                stopped = bool(pending)
+                break
+            ready, _, _ = select.select(list(live), [], [], 5.0)
+            for fd in ready:
+                block = os.read(fd, 1 << 20)
+                if block:
+                    live[fd][1].append(block)
+                    continue
+                pid, bufs, _t0, task = live.pop(fd)
+                os.close(fd)
+                _, status = os.waitpid(pid, 0)
+                if status != 0 or not bufs:
+                    raise RuntimeError(f"process for task {task[3:5]} ended with status {status} and "
+                                       f"{sum(map(len, bufs))} bytes of result")
+                on_result(pickle.loads(b"".join(bufs)))
+            now = time.monotonic()
+            for fd, (pid, _bufs, t0, task) in list(live.items()):
+                if now - t0 > 900:
+                    raise RuntimeError(f"task {task[3:5]} exceeded 900 s; aborting batch")
+            if now >= deadline and pending:
+                stopped = True
+                pending = []
+    finally:
+        for fd, (pid, _bufs, _t0, _task) in live.items():
+            try:
+                os.kill(pid, signal.SIGKILL)
+                os.waitpid(pid, 0)
+                os.close(fd)
+            except OSError:
+                pass
+    return stopped
+
+
 def worker_main(a):
-    """One partition on a fork pool inside this (fresh) interpreter."""
+    """One partition inside this (fresh) interpreter: every chunk of runs in a process forked for it."""
     global _MODULE
-    import multiprocessing as mp
-    from concurrent.futures import ProcessPoolExecutor
     from collections import Counter
 
     _MODULE = load_module(a.property)
@@ -132,43 +201,26 @@ def worker_main(a):
     }
     deadline = time.monotonic() + a.wall
     workers = max(1, a.workers)
-    ctxmp = mp.get_context("fork")
-    with ProcessPoolExecutor(max_workers=workers, mp_context=ctxmp) as ex:
-        pending = list(tasks)
-        futs = []
-        # submit lazily so that a wall cap stops generating new work
-        import concurrent.futures as cf
 
-        inflight = set()
-        while pending or inflight:
-            while pending and len(inflight) < workers * 2 and time.monotonic() < deadline:
-                inflight.add(ex.submit(_run_chunk, pending.pop(0)))
-            if not inflight:
-                total["stopped_early"] = bool(pending)
-                break
-            done, inflight = cf.wait(inflight, timeout=900, return_when=cf.FIRST_COMPLETED)
-            if not done:
-                raise RuntimeError("pool task exceeded 900 s; aborting batch")
-            for f in done:
-                r = f.result()
-                for k in ("runs", "events", "ticks", "vio_runs"):
-                    total[k] += r[k]
-                for k in ("faults", "probes", "scenarios"):
-                    total[k].update(r[k])
-                for k in ("shapes", "states", "nontrivial_shapes"):
-                    total[k] |= r[k]
-                total["digests"].update(r["digests"])
-                total["harness"] += r["harness"]
-                if len(total["samples"]) < 3:
-                    total["samples"] += r["samples"][: 3 - len(total["samples"])]
-                for sig, lst in r["violations"].items():
-                    cur = total["violations"].setdefault(sig, [])
-                    if len(cur) < KEEP_PER_SIG:
-                        cur += lst[: KEEP_PER_SIG - len(cur)]
-            if time.monotonic() >= deadline and pending:
-                total["stopped_early"] = True
-                pending = []
-        del futs
+    def merge(r):
+        for k in ("runs", "events", "ticks", "vio_runs"):
+            total[k] += r[k]
+        for k in ("faults", "probes", "scenarios"):
+            total[k].update(r[k])
+        for k in ("shapes", "states", "nontrivial_shapes"):
+            total[k] |= r[k]
+        total["digests"].update(r["digests"])
+        total["harness"] += r["harness"]
+        if len(total["samples"]) < 3:
+            total["samples"] += r["samples"][: 3 - len(total["samples"])]
+        for sig, lst in r["violations"].items():
+            # the representatives of a signature are its earliest runs, whatever order the chunks finish in
+            cur = total["violations"].setdefault(sig, [])
+            cur += lst
+            cur.sort(key=lambda item: item[2]["i"])
+            del cur[KEEP_PER_SIG:]
+
+    total["stopped_early"] = fork_map(tasks, workers, deadline, merge)
     with open(a.out, "wb") as f:
         pickle.dump(total, f)
     return 0
@@ -214,18 +266,64 @@ def minimise_main(a):
     return 0
 
 
+def mkseq_main(a):
+    """Write a replay file that holds a whole process history: the plans of runs [start, start+count) in order."""
+    from sim.core import dump_plan, make_rng, run_seed
+
+    module = load_module(a.property)
+    with open(a.mkseq) as f:
+        expect = json.load(f)["violation"]
+    plans = []
+    for i in range(a.start, a.start + a.count):
+        seed = run_seed(a.seed, i)
+        plan = module.generate(make_rng(seed), seed, a.part)
+        plan.setdefault("format", "histsim-replay/1")
+        plan.setdefault("property", a.property)
+        plan["seed"] = seed
+        plan["part"] = a.part
+        plans.append(json.loads(dump_plan(plan)))
+    doc = {"format": "histsim-replay-seq/1", "property": a.property, "part": a.part, "base_seed": a.seed,
+           "run_indices": [a.start, a.start + a.count - 1],
+           "note": "the violation needs the process history: these plans are executed one after the other in one "
+                   "fresh process, the last one fails",
+           "config": {"env": (plans[-1].get("config") or {}).get("env")} if plans else {},
+           "plans": plans, "expect": expect}
+    with open(a.out, "w") as f:
+        json.dump(doc, f)
+    return 0
+
+
 def replay_main(path):
     from sim.core import load_plan, run_plan
 
     with open(path) as f:
-        plan = load_plan(f.read())
-    prop = plan["property"]
-    env = (plan.get("config") or {}).get("env")
-    if env is not None and os.environ.get("HISTSIM_REPLAY_CHILD") != "1":
-        # the plan needs a specific process environment (read by physt at import time)
-        e = child_env(env)
+        text = f.read()
+    head = json.loads(text)
+    if os.environ.get("HISTSIM_REPLAY_CHILD") != "1":
+        # always in a process of its own with the environment the checks use (hash seed, the plan's own variables),
+        # so that a replay by hand is the same execution as the one that was verified before reporting
+        e = child_env((head.get("config") or {}).get("env"))
         e["HISTSIM_REPLAY_CHILD"] = "1"
         return subprocess.call([PY, os.path.join(VERIF, "run.py"), "--replay", path], env=e)
+    if head.get("format") == "histsim-replay-seq/1":
+        prop = head["property"]
+        module = load_module(prop)
+        ctx = None
+        for plan in head["plans"]:
+            ctx = run_plan(module, load_plan(json.dumps(plan)))
+        sigs = [v.signature for v in ctx.violations] if ctx else []
+        expect = (head.get("expect") or {}).get("signature")
+        print(f"replay {path}: {len(head['plans'])} runs in sequence, last digest={ctx.digest() if ctx else None} "
+              f"violations={sigs}")
+        for v in (ctx.violations if ctx else []):
+            print(f"  {v.signature}: {v.message}")
+        if expect in sigs or (expect is None and sigs):
+            print(f"VIOLATION property={prop} replay={path}")
+            return 1
+        print(f"replay did not reproduce expected signature {expect}")
+        return 0 if not sigs else 1
+    plan = load_plan(text)
+    prop = plan["property"]
     module = load_module(prop)
     ctx = run_plan(module, plan)
     expect = (plan.get("expect") or {}).get("signature")
@@ -302,6 +400,7 @@ def check_main(a):
     workers = a.workers or min(16, os.cpu_count() or 1)
     scratch = tempfile.mkdtemp(prefix="histsim-", dir="/var/tmp")
     harness_msgs = []
+    harness_notes = []  # recoverable trouble (e.g. a minimisation that failed but whose plain replay succeeded)
     agg = None
     det = {"seeds_checked": 0, "mismatches": 0}
     from collections import Counter
@@ -374,26 +473,55 @@ def check_main(a):
         reported = []
         for n, sig in enumerate(new_sigs):
             part, lst = agg["violations"][sig]
-            vio, plan_text = lst[0]
+            vio, plan_text, hist = lst[0]
             item = os.path.join(scratch, f"vio{n}.json")
             with open(item, "w") as f:
                 json.dump({"violation": vio, "plan": plan_text}, f)
             rp = os.path.join(VERIF, "replays", f"{prop}-{json.loads(plan_text)['seed']}-{n}.json")
             budget = (300, 20.0) if n < 6 else (1, 5.0)
+
+            def reproduces(path):
+                # a replay file must reproduce in a fresh process before it is reported
+                q = subprocess.run([PY, os.path.join(VERIF, "run.py"), "--replay", path],
+                                   env=child_env(part.get("env")), capture_output=True, text=True, timeout=900)
+                return (q.returncode == 1 and "VIOLATION" in q.stdout), q
+
             p = subprocess.run(
                 [PY, os.path.join(VERIF, "run.py"), "--minimise", item, "--property", prop,
                  "--out", rp, "--max-exec", str(budget[0]), "--max-wall", str(budget[1])],
                 env=child_env(part.get("env")), capture_output=True, text=True, timeout=600)
-            if p.returncode != 0 or not os.path.exists(rp):
-                harness_msgs.append(f"minimisation failed for {sig}: {p.stderr[-2000:]}")
-                continue
-            # the replay file must reproduce in a fresh process before it is reported
-            q = subprocess.run([PY, os.path.join(VERIF, "run.py"), "--replay", rp],
-                               env=child_env(part.get("env")), capture_output=True, text=True,
-                               timeout=600)
-            if q.returncode != 1 or "VIOLATION" not in q.stdout:
-                harness_msgs.append(f"replay of {rp} did not reproduce {sig}: rc={q.returncode} "
-                                    f"{q.stdout[-800:]} {q.stderr[-800:]}")
+            ok_rep, q = (False, None)
+            if p.returncode == 0 and os.path.exists(rp):
+                ok_rep, q = reproduces(rp)
+            else:
+                harness_notes.append(f"minimisation failed for {sig}: {p.stderr[-2000:]}")
+            if not ok_rep:
+                # second attempt: the run exactly as it was executed, not minimised
+                doc = json.loads(plan_text)
+                doc["expect"] = vio
+                with open(rp, "w") as f:
+                    json.dump(doc, f)
+                ok_rep, q = reproduces(rp)
+            if not ok_rep and n < 6:
+                # third attempt: the violation may need what earlier runs of the same process left behind (state the
+                # library keeps between histories). Replay the process history: the last k runs of the chunk, then
+                # the whole chunk up to the failing run.
+                lo_i, i_i = int(hist["lo"]), int(hist["i"])
+                for k in (2, 4, 16, i_i - lo_i + 1):
+                    start = max(lo_i, i_i - k + 1)
+                    m = subprocess.run(
+                        [PY, os.path.join(VERIF, "run.py"), "--mkseq", item, "--property", prop, "--seed", str(seed),
+                         "--part", str(parts.index(part)), "--start", str(start), "--count", str(i_i - start + 1),
+                         "--out", rp], env=child_env(part.get("env")), capture_output=True, text=True, timeout=600)
+                    if m.returncode != 0:
+                        harness_notes.append(f"could not write the history replay for {sig}: {m.stderr[-1500:]}")
+                        break
+                    ok_rep, q = reproduces(rp)
+                    if ok_rep or start == lo_i:
+                        break
+            if not ok_rep:
+                harness_msgs.append(f"replay of {rp} did not reproduce {sig}: rc={q.returncode if q else None} "
+                                    f"{(q.stdout[-800:] + ' ' + q.stderr[-800:]) if q else ''}")
                 continue
             print(f"VIOLATION property={prop} replay={rp}")
             print(f"  signature: {sig}")
@@ -441,10 +569,15 @@ def check_main(a):
         print(f"{prop} {tier}: runs={agg['runs']} distinct_nontrivial={len(agg['nontrivial_shapes'])} "
               f"faults={sum(agg['faults'].values())} violations={len(reported)} "
               f"known={len(known_hit)} harness_errors={len(harness_msgs)} wall={wall:.1f}s")
+        for m in harness_notes[:10]:
+            print("HARNESS-NOTE:", m, file=sys.stderr)
         if harness_msgs:
             for m in harness_msgs[:10]:
                 print("HARNESS-ERROR:", m, file=sys.stderr)
-            return 2
+            # a violation that was reproduced from its replay file in a fresh process stands on its own, whatever
+            # else went wrong in the batch (e.g. digests that differ because the library under test carries state
+            # from run to run); without one, harness trouble is never reported as "held"
+            return 1 if reported else 2
         if agg["runs"] == 0:
             print("HARNESS-ERROR: no run executed", file=sys.stderr)
             return 2
@@ -465,6 +598,7 @@ def main(argv=None):
     ap.add_argument("--worker", action="store_true")
     ap.add_argument("--digests", action="store_true")
     ap.add_argument("--minimise")
+    ap.add_argument("--mkseq")
     ap.add_argument("--part", type=int, default=0)
     ap.add_argument("--start", type=int, default=0)
     ap.add_argument("--count", type=int, default=0)
@@ -481,6 +615,8 @@ def main(argv=None):
             return digests_main(a)
         if a.minimise:
             return minimise_main(a)
+        if a.mkseq:
+            return mkseq_main(a)
         if not a.property:
             ap.error("--property required")
         return check_main(a)
